@@ -39,7 +39,7 @@ def main():
             fired[p] = (r.returncode, keys)
             print('%s rc=%d' % (p, r.returncode))
             for k in keys[:6]:
-                print('    ' + k[:220])
+                print("    " + k[:220])
             if r.returncode == 2:
                 print('    ' + r.stdout.strip().splitlines()[-1][:300])
     if not fired:
